@@ -3,8 +3,8 @@ import json, os, re, subprocess, sys, time, hashlib, shutil, atexit, glob
 
 VERIF = os.path.dirname(os.path.dirname(os.path.abspath(__file__)))
 REPO = os.environ.get('WOWM_REPO', '/repo')
-BUILD = os.path.join(VERIF, '.build')
-HARNESS = os.path.join(VERIF, 'harness')
+BUILD = os.environ.get('VERIF_BUILD', os.path.join(VERIF, '.build'))
+HARNESS = os.environ.get('VERIF_HARNESS', os.path.join(VERIF, 'harness'))
 EVIDENCE = os.path.join(VERIF, 'evidence')
 REPLAYS = os.path.join(EVIDENCE, 'replays')
 NCPU = os.cpu_count() or 4
@@ -45,6 +45,8 @@ def cargo_build(package, release=False, features=None, no_default=False, extra_e
     env = dict(ENV)
     if extra_env:
         env.update(extra_env)
+    if not target_dir and 'VERIF_BUILD' in os.environ:
+        target_dir = os.path.join(BUILD, 'target')
     if target_dir:
         env['CARGO_TARGET_DIR'] = target_dir
     t0 = time.time()
